@@ -352,12 +352,15 @@ def _work(args):
     rows, prms, meta = gen_scene(seed, k, family)
     index, ikind = index_variant(random.Random(f'{seed}:idx:{family}:{k}'), rows)
     meta['index'] = ikind
+    # one scene in three goes through the package's entry point `ampycloud.run` instead of the stage methods
+    route = 'run' if random.Random(f'{seed}:route:{family}:{k}').random() < 0.33 else 'stepwise'
+    meta['route'] = route
     try:
-        obs = scenes.run_scene(rows, prms, index=index)
+        obs = scenes.run_scene(rows, prms, index=index, route=route)
     except Exception as e:
         return {'meta': meta, 'harness_error': f'{type(e).__name__}: {e}'}
     out = {'meta': meta, 'exc': obs['exc'], 'stage': obs['stage'], 'exc_msg': obs.get('exc_msg'),
-           'stats': dict(scenes.scene_stats(obs), **{'index_' + ikind: 1}), 'req': None, 'missing': obs['trace'].missing,
+           'stats': dict(scenes.scene_stats(obs), **{'index_' + ikind: 1, 'route_' + route: 1}), 'req': None, 'missing': obs['trace'].missing,
            'digest': hashlib.sha1(repr((rows, sorted(prms.items(), key=str))).encode()).hexdigest()[:16],
            'nrows': len(rows), 'prms': prms}
     if not obs['exc']:
